@@ -118,7 +118,8 @@ def gen(w, sig, depth):
     if len(sig) <= 2 and rng.random() < 0.15:
         opts.append("zero")
     if depth > 0:
-        opts += ["add", "sub", "neg", "mul", "fs1", "fs2", "fs3", "actf", "actf", "actc", "actc", "adj", "adj"]
+        opts += ["add", "sub", "neg", "mul", "fs1", "fs2", "fs3", "actf", "actf", "actc", "actc", "adj", "adj",
+                 "addz", "subz", "rsubz", "rsubz"]
         if tuple(sig[-1:]) == (1,) and rng.random() < 0.5:
             opts.append("actid")
         if tuple(sig[:1]) == (0,) and rng.random() < 0.3:
@@ -154,6 +155,10 @@ def gen_opt(w, sig, depth, o):
     if o == "mul":
         a = gen(w, sig, d)
         return None if a is None else ("mul", rng.choice(WEIGHTS), a)
+    if o in ("addz", "subz", "rsubz"):
+        # a literal zero as the other operand: a + 0, 0 + a, a - 0, 0 - a (reflected operators)
+        a = gen(w, sig, depth if rng.random() < 0.5 else d)
+        return None if a is None else (o, rng.choice(["int", "float", "Zero"]), rng.random() < 0.5, a)
     if o in ("fs1", "fs2", "fs3"):
         n = int(o[2])
         parts = [gen(w, sig, d) for _ in range(n)]
@@ -285,6 +290,17 @@ def evaluate1(e):
         a, b = evaluate(e[1]), evaluate(e[2])
         need_baseform(a, b)
         r = a + b if k == "add" else a - b
+    elif k in ("addz", "subz", "rsubz"):
+        from ufl.classes import Zero
+        a = evaluate(e[3])
+        need_baseform(a)
+        z = {"int": 0, "float": 0.0, "Zero": Zero()}[e[1]]
+        if k == "addz":
+            r = (z + a) if e[2] else (a + z)
+        elif k == "subz":
+            r = a - z
+        else:
+            r = z - a
     elif k == "neg":
         a = evaluate(e[1])
         need_baseform(a)
@@ -419,6 +435,8 @@ def qexp(w, e):
         return f"(ESub {qexp(w, e[1])} {qexp(w, e[2])})"
     if k == "neg":
         return f"(ENeg {qexp(w, e[1])})"
+    if k in ("addz", "subz", "rsubz"):
+        return f"({ {'addz': 'EAddZero', 'subz': 'ESubZero', 'rsubz': 'ERSubZero'}[k]} {qexp(w, e[3])})"
     if k == "mul":
         return f"(EMul {qz(e[1])} {qexp(w, e[2])})"
     if k == "act":
@@ -439,6 +457,11 @@ def show(e):
         return f"({show(e[1])} {'+' if k == 'add' else '-'} {show(e[2])})"
     if k == "neg":
         return f"-{show(e[1])}"
+    if k in ("addz", "subz", "rsubz"):
+        z = {"int": "0", "float": "0.0", "Zero": "Zero()"}[e[1]]
+        if k == "addz":
+            return f"({z} + {show(e[3])})" if e[2] else f"({show(e[3])} + {z})"
+        return f"({show(e[3])} - {z})" if k == "subz" else f"({z} - {show(e[3])})"
     if k == "mul":
         return f"{e[1]}*{show(e[2])}"
     if k == "act":
@@ -501,6 +524,10 @@ def num_exp(w, e):
         return num_exp(w, e[1]) - num_exp(w, e[2])
     if k == "neg":
         return -num_exp(w, e[1])
+    if k in ("addz", "subz"):
+        return num_exp(w, e[3])
+    if k == "rsubz":
+        return -num_exp(w, e[3])
     if k == "mul":
         return e[1] * num_exp(w, e[2])
     if k == "act":
@@ -519,6 +546,8 @@ def spec_rank(w, e):
         return spec_rank(w, e[1])
     if k in ("neg", "adj"):
         return spec_rank(w, e[1])
+    if k in ("addz", "subz", "rsubz"):
+        return spec_rank(w, e[3])
     if k == "mul":
         return spec_rank(w, e[2])
     r = e[2]
